@@ -74,6 +74,85 @@ func ruleChainRefAbsolute(c *Ctx) {
 		}
 		return true
 	})
+	// ... or does it loop, moving its base parameter at every iteration (the tail recursion written as a loop)?
+	var followLoop *ast.ForStmt
+	ast.Inspect(fd.Body, func(n ast.Node) bool {
+		loop, ok := n.(*ast.ForStmt)
+		if !ok {
+			return true
+		}
+		followsIn, movesBase := false, false
+		ast.Inspect(loop.Body, func(m ast.Node) bool {
+			switch x := m.(type) {
+			case *ast.CallExpr:
+				if c.callee(x) == fam.resolveRef {
+					followsIn = true
+				}
+			case *ast.AssignStmt:
+				for _, l := range x.Lhs {
+					if id, ok := unparen(l).(*ast.Ident); ok && c.objOf(id) == baseParam {
+						movesBase = true
+					}
+				}
+			}
+			return true
+		})
+		if followsIn && movesBase {
+			followLoop = loop
+		}
+		return true
+	})
+	if followLoop != nil {
+		moves = true
+		// the resolution inside the loop runs on a loader variable that each iteration re-points to the resolver
+		// for the document just reached, chosen from the normalised reference of the hop that was followed
+		var rcall *ast.CallExpr
+		ast.Inspect(followLoop.Body, func(m ast.Node) bool {
+			if cc, ok := m.(*ast.CallExpr); ok && c.callee(cc) == fam.resolveRef && rcall == nil {
+				rcall = cc
+			}
+			return true
+		})
+		good, targetOK := false, false
+		if se, ok := unparen(rcall.Fun).(*ast.SelectorExpr); ok {
+			if lid, ok := unparen(se.X).(*ast.Ident); ok && c.objOf(lid) != c.recvObj(fd) {
+				lv := c.objOf(lid)
+				ast.Inspect(followLoop.Body, func(m ast.Node) bool {
+					as, ok := m.(*ast.AssignStmt)
+					if !ok || len(as.Lhs) != 1 || len(as.Rhs) != 1 || as.Pos() < rcall.End() {
+						return true
+					}
+					if id, ok := unparen(as.Lhs[0]).(*ast.Ident); !ok || c.objOf(id) != lv {
+						return true
+					}
+					sw, isCall := unparen(as.Rhs[0]).(*ast.CallExpr)
+					if !isCall {
+						return true
+					}
+					g, _ := c.callee(sw).(*types.Func)
+					if g == nil || g.Pkg() != c.Types {
+						return true
+					}
+					sig := g.Type().(*types.Signature)
+					if sig.Recv() != nil && sig.Results().Len() == 1 && isNamed(derefType(sig.Results().At(0).Type()), c.Types, fam.loader.Obj().Name()) {
+						good = true
+						for _, a := range sw.Args {
+							if isNamed(derefType(c.typeOf(a)), c.Types, "Ref") && c.isNormalisedRef(fd, a, nil, 0) {
+								targetOK = true
+							}
+						}
+					}
+					return true
+				})
+			}
+		}
+		c.ob(rule, fn+":resolver-switch", rcall.Pos(), good,
+			fn+" follows the next $ref of a chain in another document but with its own resolver: a fragment-only $ref found there is looked up in the document of the receiver (silently the wrong element)")
+		if good {
+			c.ob(rule, fn+":resolver-switch-target", rcall.Pos(), targetOK,
+				"the resolver for the next hop is chosen from the holder's own $ref, which the resolution has just overwritten with the NEXT reference of the chain, instead of the normalised reference of the hop that was followed")
+		}
+	}
 	if !moves {
 		c.ob(rule, fn, fd.Pos(), true, "")
 		return
